@@ -67,6 +67,7 @@ class Point:
     pre_hook: bool = False
     post_hook: bool = False
     base: str = "mixin"  # mixin | plain (plain dataclass used through a codec)
+    by_alias: bool = False  # Config.serialize_by_alias
 
     def label(self):
         opts = "".join(
@@ -78,6 +79,7 @@ class Point:
                 ("P", self.parent_discriminator),
                 ("h", self.pre_hook),
                 ("H", self.post_hook),
+                ("S", self.by_alias),
             )
             if on
         )
@@ -205,6 +207,8 @@ def class_source(p: Point, cname="C", mixin=True):
         cfg.append("allow_deserialization_not_by_alias = True")
     if p.forbid_extra_keys:
         cfg.append("forbid_extra_keys = True")
+    if p.by_alias:
+        cfg.append("serialize_by_alias = True")
     al = {f.name: f.al() for f in p.fields if f.alias == "config"}
     al.update({f.name: f"cfg_{f.name}" for f in p.fields if f.alias in ("multi", "multi2")})
     if al:
@@ -261,6 +265,7 @@ def class_source(p: Point, cname="C", mixin=True):
     if p.base == "plain" and mixin:
         src.append("from mashumaro.codecs.basic import BasicDecoder, BasicEncoder")
         src.append(f"DECODER = BasicDecoder({cname})")
+        src.append(f"ENCODER = BasicEncoder({cname})")
     return "\n".join(src) + "\n"
 
 
